@@ -2,7 +2,8 @@
 from . import core, forest_adapter as A
 
 DEVS = [("Dev_FalsyParent", {"ArchSubset"}), ("Dev_ParentSetFirst", {"RefusedNoop", "UidAligned", "ParentMirror"}),
-        ("Dev_RecurseDropsArch", {"GetVSound"}), ("Dev_LookupUidFirst", {"Findable"})]
+        ("Dev_RecurseDropsArch", {"GetVSound"}), ("Dev_LookupUidFirst", {"Findable"}),
+        ("Dev_UidCollision", {"UidUnique", "Findable"})]
 
 
 def run(ctx):
@@ -23,7 +24,7 @@ def run(ctx):
         if dev is None:
             return job, ctx.tlc("MC_Forest", "MC_Forest.cfg", must_cover=["Next"], workers=4)
         return job, ctx.tlc("MC_Forest", cfg_text=base.replace(dev + " = FALSE", dev + " = TRUE"), expect_error=True, count=False, workers=3)
-    with concurrent.futures.ThreadPoolExecutor(max_workers=5) as ex:
+    with concurrent.futures.ThreadPoolExecutor(max_workers=6) as ex:
         results = list(ex.map(mc, [(None, None)] + DEVS))
     for (dev, invs), r in results:
         if dev is None:
